@@ -32,7 +32,7 @@ var accepted = map[string][]string{
 	"C07": {"remove-live", "read-removed", "files-residue", "space", "iter", "panic"},
 	"C08": {"get", "scan", "iter", "snapget", "snapiter", "txget", "txiter", "open", "panic"},
 	"C09": {"hang", "close-twice", "panic"},
-	"C10": {"wgroup", "lin", "hang", "panic"},
+	"C10": {"wgroup", "lin", "arg-modified", "hang", "panic"},
 	"C11": {"txget", "txiter", "get", "scan", "iter", "open", "files-residue", "tx-open", "tx-commit", "write-err", "lin", "hang", "panic"},
 	"C12": {"journal", "panic"},
 	"C13": {"table", "panic"},
